@@ -184,6 +184,65 @@ def recorded_cases(draw):
     return c
 
 
+# ------------------------------------------------------------------ (c) the real program: /RFKicks/data under several cadences
+def run_cli(case):
+    from vlib import cli, cfggen
+    wd = cli.scratch("c19")
+    o = dict(case["opts"])
+    d = cfggen.derive(o)
+    L = d["laststep"]
+    res = []
+    env = {"INOVESA_VERIF_PRNG_SEED": str(case["prng"])}
+    for i, outstep in enumerate(case["outsteps"]):
+        r = cli.run(["-c", "/dev/null", "-o", "r%d.h5" % i] + cli.optargs(dict(o, outstep=outstep)), wd, env=env)
+        if r.rc != 0 or "Finished." not in r.out:
+            return Outcome(False, True, ["cli"], "run failed: %s %s" % (r.out[-300:], r.err[-300:]), sig="c19:cli:runfail")
+        if "dynamic" not in r.out:
+            return Outcome(True, False, ["cli", "static"], discard=True)
+        res.append(cli.H5(os.path.join(wd, "r%d.h5" % i)))
+    cls = ["cli", "linear" if o.get("LinearRF", True) else "sinus", "noise" if (o.get("RFPhaseSpread") or o.get("RFAmplitudeSpread")) else "nonoise"]
+    nontriv = bool(len(set(case["outsteps"])) >= 2 and L >= 4)
+    ref = res[0]["/RFKicks/data"]
+    for i, h in enumerate(res):
+        k = h["/RFKicks/data"]
+        if k.shape[0] != L:
+            return Outcome(False, nontriv, cls, "/RFKicks/data has %d records for %d executed steps (outstep=%d)" % (k.shape[0], L, case["outsteps"][i]), sig="c19:cli:count")
+        if (gen.bits(k) != gen.bits(ref)).any():
+            j = int(np.argwhere(gen.bits(k) != gen.bits(ref))[0][0])
+            return Outcome(False, nontriv, cls, "recorded RF kicks differ between outstep=%d and outstep=%d from step %d on" % (case["outsteps"][0], case["outsteps"][i], j), sig="c19:cli:cadence")
+    if not (o.get("RFPhaseSpread") or o.get("RFAmplitudeSpread")) and L > 0:
+        A = o.get("RFPhaseModAmplitude", 0.0) / 360.0 * 2 * np.pi
+        step = o.get("RFPhaseModFrequency", 0.0) * d["dt"]
+        syn = 0.0 if o.get("LinearRF", True) else float(np.arcsin(d["V0"] / d["Veff"]))
+        kk = np.arange(L)
+        want = syn + A * np.sin(2 * np.pi * step * kk)
+        e = np.abs(ref[:, 0] - want).max()
+        if e > 3e-6 * (1 + abs(syn) + A) + 2e-7 * L * (1 + 2 * np.pi * step) * A or (ref[:, 1] != 1.0).any():
+            j = int(np.abs(ref[:, 0] - want).argmax())
+            return Outcome(False, nontriv, cls, "recorded phase at step %d is %.8g, configured modulation (%.4g deg, %.4g Hz) gives %.8g" %
+                           (j, ref[j, 0], o.get("RFPhaseModAmplitude", 0), o.get("RFPhaseModFrequency", 0), want[j]), sig="c19:cli:modulation")
+    return Outcome(True, nontriv, cls)
+
+
+@st.composite
+def cli_cases(draw):
+    from vlib import cfggen
+    o = draw(cfggen.base_config(nmin=16, nmax=32, min_laststep=4, max_laststep=40, multibunch=False, wake=("none", "collimator")))
+    mode = draw(st.sampled_from(["mod", "mod", "noise", "both"]))
+    d = cfggen.derive(o)
+    if mode in ("mod", "both"):
+        o["RFPhaseModAmplitude"] = float(draw(st.floats(0.1, 20.0)))
+        o["RFPhaseModFrequency"] = float(d["fs"] * draw(st.floats(0.2, 3.0)))
+    if mode in ("noise", "both"):
+        o["RFPhaseSpread"] = float(draw(st.sampled_from([0.0, 0.01, 0.5])))
+        o["RFAmplitudeSpread"] = float(draw(st.sampled_from([1e-5, 1e-3])))
+    L = d["laststep"]
+    outs = draw(st.lists(st.sampled_from([0, 1, 2, 3, 7, max(1, L), L + 3]), min_size=2, max_size=3, unique=True))
+    o["SavePhaseSpace"] = draw(st.sampled_from([0, 1]))
+    return dict(opts=o, outsteps=outs, prng=draw(st.integers(1, 2**31 - 1)))
+
+
 def subs(tier):
-    return [Sub("zeroamp", zero_cases(), run_zero, quick=800, thorough=30000),
-            Sub("recorded", recorded_cases(), run_recorded, quick=700, thorough=30000)]
+    return [Sub("zeroamp", zero_cases(), run_zero, quick=3200, thorough=30000),
+            Sub("recorded", recorded_cases(), run_recorded, quick=2800, thorough=30000),
+            Sub("cli", cli_cases(), run_cli, quick=192, thorough=600, needs=("rel", "h5x", "shim"), shrink_budget=20)]
